@@ -488,8 +488,29 @@ def r04_7(ctx: Ctx) -> None:
     ctx.check(bool(ok), "R04.7", tz, tz.node, "testzip registers every member for checking", "testzip() does not register every member", construct="testzip registrations")
 
 
+def r04_8(ctx: Ctx) -> None:
+    """a CrcError raised by the member decoder is not lost on the way to the caller: the catch-all around the folder task
+    re-raises or forwards into the error channel, the decision being made on that channel (shared with R13.3)."""
+    from . import c13
+    w = ctx.prog.func("py7zr", "Worker.extract_single")
+    n = 0
+    for h in [x for x in walk(w.node) if isinstance(x, ast.ExceptHandler)]:
+        names = {x.id for x in ast.walk(h.type) if isinstance(x, ast.Name)} if h.type is not None else {"BaseException"}
+        if not names & {"Exception", "BaseException"}:
+            continue
+        chans = {x.func.value.id for x in ast.walk(h) if isinstance(x, ast.Call) and isinstance(x.func, ast.Attribute) and x.func.attr in ("put", "put_nowait")
+                 and isinstance(x.func.value, ast.Name) and x.func.value.id in w.params}
+        if len(chans) != 1:
+            ctx.fail("R04.8", w, h, "the catch-all around the folder task forwards the exception into no (or more than one) channel parameter")
+            continue
+        n += 1
+        c13.handler_branches(ctx, "R04.8", w, h, next(iter(chans)))
+    ctx.floor("R04.8", n, 1, "catch-all handlers in the folder task")
+
+
 def run(ctx: Ctx) -> None:
     r04_7(ctx)
+    r04_8(ctx)
     from . import c10
     c10.r10_3(ctx)
     r04_1(ctx)
